@@ -21,6 +21,7 @@ import (
 	"os"
 	"sync"
 	"sync/atomic"
+	"syscall"
 
 	"verif/vk"
 
@@ -88,6 +89,19 @@ func replay(r *vk.Run) {
 	os.Exit(0)
 }
 
+// cpuSeconds: user+system CPU time of this process (progress lines on stderr only; never part of the evidence)
+func cpuSeconds() float64 {
+	var ru syscall.Rusage
+	if syscall.Getrusage(syscall.RUSAGE_SELF, &ru) != nil {
+		return 0
+	}
+	return float64(ru.Utime.Sec+ru.Stime.Sec) + float64(ru.Utime.Usec+ru.Stime.Usec)/1e6
+}
+
+func phase(name string) {
+	fmt.Fprintf(os.Stderr, "c17: %-28s done, cpu so far %.0fs\n", name, cpuSeconds())
+}
+
 func main() {
 	log.Root().SetHandler(log.DiscardHandler())
 	r := vk.Start("C17", "model_checking")
@@ -109,8 +123,11 @@ func main() {
 	permExtra := [][]int64{}
 	setSearch := setCfg{ids: 3, powers: []int64{1, 3, M/2 + 1}, altCB: true}
 	setDepth := 6
-	usSearch := usCfg{ids: 3, powers: []int64{1, 3}, altCB: true}
-	usDepth := 4
+	type usRun struct {
+		cfg   usCfg
+		depth int
+	}
+	usRuns := []usRun{{usCfg{ids: 3, powers: []int64{1, 3}, altCB: true}, 3}}
 	if !r.Quick() {
 		ordAlpha = []int64{1, 2, 3, 5, 10, 100}
 		ordMaxN = 5
@@ -121,8 +138,7 @@ func main() {
 		permExtra = enumSets([]int64{1, 3}, 6, 6)
 		setSearch = setCfg{ids: 4, powers: []int64{1, 3, M/2 + 1}, altCB: true}
 		setDepth = 6
-		usSearch = usCfg{ids: 4, powers: []int64{1, 3}, altCB: true}
-		usDepth = 3
+		usRuns = []usRun{{usCfg{ids: 3, powers: []int64{1, 3}, altCB: true}, 5}, {usCfg{ids: 4, powers: []int64{1, 3}, altCB: true}, 2}}
 	}
 
 	// ---------------- rotation: parts 1, 2, 4 ----------------
@@ -148,6 +164,7 @@ func main() {
 		res[i] = checkSet(jobs[i].powers, jobs[i].cfg, r.Expired)
 		atomic.AddInt64(&done, 1)
 	})
+	phase("rotation (parts 1,2,4)")
 	if r.Expired() {
 		r.Capped(fmt.Sprintf("rotation phase hit the deadline after %d of %d sets", done, len(jobs)))
 	}
@@ -244,26 +261,38 @@ func main() {
 		report(sr)
 		perms += sr.perms
 	}
+	phase("construction order (3a)")
 	r.Set("construction_order", map[string]interface{}{"sets": len(permSets), "permutations_executed": perms})
 
 	// ---------------- (3) set operations search ----------------
 	ss := runSetSearch(r, &setSearch, "set-ops", setDepth)
+	phase("set-ops search (3)")
 	r.Set("set_ops_search", map[string]interface{}{"validators": setSearch.ids, "powers": powersText(setSearch.powers), "alphabet": len(setSearch.ops()),
 		"depth": setDepth, "depth_completed": ss.DepthCompleted, "states": ss.States, "transitions": ss.Transitions, "per_depth": ss.PerDepth,
 		"merge_checks": ss.MergeChecks})
 
 	// ---------------- (3b) updateStatus ----------------
-	usSearch.build()
 	var usPerms int64
 	var mu sync.Mutex
-	us := runStatusSearch(r, &usSearch, "updateStatus", usDepth, func(n int) {
-		mu.Lock()
-		usPerms += int64(n)
-		mu.Unlock()
-	})
-	r.Set("update_status_search", map[string]interface{}{"validators": usSearch.ids, "powers": powersText(usSearch.powers), "lists": len(usSearch.lists),
-		"depth": usDepth, "depth_completed": us.DepthCompleted, "states": us.States, "transitions": us.Transitions, "per_depth": us.PerDepth,
-		"updateStatus_calls": int(usPerms)})
+	var us vk.Result
+	var usEv []interface{}
+	for i := range usRuns {
+		c := &usRuns[i].cfg
+		c.build()
+		before := usPerms
+		res := runStatusSearch(r, c, fmt.Sprintf("updateStatus/%d-validators", c.ids), usRuns[i].depth, func(n int) {
+			mu.Lock()
+			usPerms += int64(n)
+			mu.Unlock()
+		})
+		us.States += res.States
+		us.Transitions += res.Transitions
+		usEv = append(usEv, map[string]interface{}{"validators": c.ids, "powers": powersText(c.powers), "lists": len(c.lists),
+			"depth": usRuns[i].depth, "depth_completed": res.DepthCompleted, "states": res.States, "transitions": res.Transitions, "per_depth": res.PerDepth,
+			"updateStatus_calls": int(usPerms - before)})
+	}
+	phase("updateStatus search (3b)")
+	r.Set("update_status_search", usEv)
 
 	// ---------------- coverage ----------------
 	r.Set("arith_selftest_cases", arith)
